@@ -448,6 +448,10 @@ func showCmd(args []string) {
 		fmt.Println(s)
 	}
 	fmt.Println("touched:", out.Touched, "end-block transitions:", out.EndBlockTransitions, "stats:", out.Stats)
+	last := len(out.Blocks) - 1
+	for j, x := range out.Blocks[last] {
+		fmt.Printf("%s: %s\n", out.Labels[last][j], short(x))
+	}
 }
 
 func main() {
